@@ -752,7 +752,7 @@ def check_k5_conjuncts(crate, b, kk, evs, writes, aggs, dstores, lens):
             v = (w.value[0] if w.value else ("unknown", "no operand")) if w.how.startswith("call:") else w.value
             if not mir.contains(v, lambda x: is_bin(x, "BitAnd") and (is_call(x[2], "mask") or is_call(x[3], "mask"))):
                 return False, "%s: the moved chunk is not `& mask(l)`-ed before being or-ed into place" % name
-        clears = [w for w in writes if w not in ors]
+        clears = [w for w in writes if w not in ors and not (w.how == "call:fill" and w.value and (w.value[0] == ("int", 0)))]
         for w in clears:
             v = (w.value[0] if w.value else ("unknown", "no operand")) if w.how.startswith("call:") else w.value
             if not mir.contains(v, lambda x: x[0] == "un" and x[1] == "Not" and mir.contains(x, lambda y: is_call(y, "mask"))):
